@@ -12,7 +12,7 @@ THOROUGH = dict(worlds=256, runs=3000, seconds=30)
 RULE = ("lint-clean circuits (0-10 startpoints, blackbox pins, constants, some cyclic) x assumption sets; "
         "distinct = canonical net + assumptions; non-trivial = some expected count is neither 0 nor 2^n")
 PROBES = ["count_0", "count_full", "count_partial", "assume_internal", "bb_startpoint", "dimacs>8KiB", "cyclic",
-          "cyclic_no_stable", "cyclic_multi_stable", "sigprob", "contradictory"]
+          "cyclic_no_stable", "cyclic_multi_stable", "sigprob", "contradictory", "explicit_sampling_set"]
 ASSUMPTIONS = ["<= 10 startpoints (12 in a few runs), only the default plain-clause DIMACS mode is judged",
                "the value approx_model_count returns is recorded as a probe, not judged"]
 
@@ -59,7 +59,11 @@ def gen(rng, tier):
         if q not in queries:
             queries.append(q)
     sp_nodes = rng.sample(names, min(len(names), 3))
-    return {"net": net, "queries": queries, "sp_nodes": sp_nodes,
+    approx_sp = None
+    if free and rng.random() < 0.25:
+        # an explicit sampling set: a proper, non-empty subset of the startpoints
+        approx_sp = rng.sample(free, rng.randint(1, len(free)))
+    return {"net": net, "queries": queries, "sp_nodes": sp_nodes, "approx_sp": approx_sp,
             "peer": {"seed": rng.getrandbits(32), "policy": rng.choice(peers.SOLVER_POLICIES)}}
 
 
@@ -106,6 +110,27 @@ def run(case, ctx):
             m &= tts[n] if v else (tts[n] ^ full)
         return ref.popcount(m)
 
+    sub = case.get("approx_sp")
+    if sub and (any(x not in sp for x in sub) or len(sp) > 10):
+        sub = None
+
+    def expected_sub(A):
+        if small:
+            m = ref.constrain(mask, k, idx, A)
+            m = ref.project_exists(m, k, {idx[x] for x in sub})
+            return ref.popcount(m) >> (k - len(sub))
+        m = full
+        for n, v in A.items():
+            m &= tts[n] if v else (tts[n] ^ full)
+        pos = [sp.index(x) for x in sub]
+        seen = set()
+        while m:
+            low = m & -m
+            i = low.bit_length() - 1
+            m ^= low
+            seen.add(tuple((i >> p) & 1 for p in pos))
+        return len(seen)
+
     nontrivial = False
     for qi, A in enumerate(case["queries"]):
         A = {n: v for n, v in A.items() if n in nodes}
@@ -126,7 +151,13 @@ def run(case, ctx):
                             f"({len(sp)} startpoints)", dict(sig0, kind="model_count"))
         # approxmc hand-off
         ctx.peer.approxmc_calls.clear()
-        ret = ctx.call("C08.approx_raises", sig0, cg.sat.approx_model_count, c, dict(A))
+        want_a = want
+        if sub:
+            ctx.probe("explicit_sampling_set")
+            want_a = expected_sub(A)
+            ret = ctx.call("C08.approx_raises", sig0, cg.sat.approx_model_count, c, dict(A), startpoints=list(sub))
+        else:
+            ret = ctx.call("C08.approx_raises", sig0, cg.sat.approx_model_count, c, dict(A))
         calls = ctx.peer.approxmc_calls
         ctx.stats["approx_calls"] += 1
         if len(calls) != 1:
@@ -148,11 +179,11 @@ def run(case, ctx):
             ctx.violate("C08.dimacs_mode", "xor clauses in default mode", sig0)
         cnt = ref.count_projected(nv, clauses, ind, xors)
         ctx.log("dimacs", qi, len(text), fp(text), cnt, ret)
-        if cnt != want:
+        if cnt != want_a:
             ctx.violate("C08.dimacs_count", f"DIMACS instance handed to approxmc has {cnt} models projected on its "
-                        f"sampling set ({len(set(ind))} vars), expected {want}; assumptions={A}; bytes={len(text)}",
-                        dict(sig0, kind="dimacs_count"))
-        if ret != want:
+                        f"sampling set ({len(set(ind))} vars{', explicit startpoints ' + str(sub) if sub else ''}), expected "
+                        f"{want_a}; assumptions={A}; bytes={len(text)}", dict(sig0, kind="dimacs_count"))
+        if ret != want_a:
             ctx.probe("approx_return_mismatch")
     # signal probability (blackbox-free cones of acyclic circuits)
     if not cyc:
@@ -188,6 +219,8 @@ def shrink(case):
     if len(qs) > 1:
         for i in range(len(qs)):
             yield dict(case, queries=[qs[i]])
+    if case.get("approx_sp"):
+        yield dict(case, approx_sp=None)
     if case["sp_nodes"]:
         yield dict(case, sp_nodes=[])
         for n in case["sp_nodes"]:
@@ -197,7 +230,8 @@ def shrink(case):
             continue
         nn = set(net["nodes"])
         yield dict(case, net=net, queries=[{k: v for k, v in q.items() if k in nn} for q in qs],
-                   sp_nodes=[n for n in case["sp_nodes"] if n in nn])
+                   sp_nodes=[n for n in case["sp_nodes"] if n in nn],
+                   approx_sp=[n for n in (case.get("approx_sp") or []) if n in nn and net["nodes"][n][0] in ("input", "bb_output")] or None)
     for i, q in enumerate(qs):
         for k in list(q):
             q2 = dict(q)
